@@ -750,7 +750,10 @@ LEVEL_TEXT = ('Machine-checked proofs (Coq) about an executable model of detectB
               'round trip parse(print v) = v for ALL values of int, unsigned, long, unsigned long, long long, unsigned long long (LP64, extremes and the printed word umax included, '
               'for clean and stale errno, also when followed by a separator), bool, char (NUL refuted); accepts-only: an accepted text denotes exactly the returned value in its detected base '
               'or keyword for digit runs of any length, value within range, end position inside the string, string_cast accepts iff nothing is left; finite sweep over all generated enum tables; '
-              'pairs and non-empty lists of integers round-trip. Model tied to the code by translator-regenerated tables and a differential run against the sanitizer build.')
+              'pairs and non-empty lists round-trip for ALL element types of the model (integers, bool, char, every constant of the nine enumerations) with exactly the exclusions char NUL, char "(" as first component of a pair, '
+              'char "[" as first element of a list (each exclusion proved necessary for every value of that shape, not only by a witness); accepts-only for every scalar type, pairs and lists on arbitrary strings: '
+              'the input decomposes into optional brackets, element texts and separators, every delivered element is the denotation of its own text and lies in the range of its type, the end position lies inside the string. '
+              'Model tied to the code by translator-regenerated tables and a differential run against the sanitizer build.')
 LEVEL_NOTE = ('Trusted: Coq kernel/vm_compute, extraction+driver (sample cross-checked by vm_compute), harness, translator; libc strtoll/strtoull modelled (validated by correspondence); '
               'known findings: empty vector, char NUL, leading "(" / "[" char in pair / vector do not round-trip.')
 TECHNIQUE = 'Coq proofs about an executable model + differential correspondence with the implementation + independent big-integer oracle'
